@@ -138,7 +138,7 @@ def execute(ctx, rng, variant, sel, cfg, alg, tag, star=False, expect_quantized=
     # the history must not show
     warm = [('.*', '*', str(rng.choice(['drq8_cw', 'wo8a_cw', 'srq8a_cw', 'fp16', 'drq4_cw', 'srq16_tw'])))]
     ctx.count('star_executions_on_a_warmed_quantizer')
-  run = common.pipeline(spec, datasets, rules=[rule], warm_rules=warm)
+  run = common.pipeline(spec, datasets, rules=[rule], warm_rules=warm, warm_other=bool(warm and rng.random() < 0.5))
   opn = [k for k, v in models.SINGLE_OPS.items() if variant in v][0]
   mode = mode_of(cfg, alg)
   feats = {'variant': variant, 'op': opn, 'mode': mode, 'star': star, 'selector': sel}
